@@ -179,16 +179,26 @@ def parse_vec(rank_toks_list):
 def outs_of(res):
     """-> {op index: (raw token string, [values])}, BOK {k: bool}, ITER {k: it}, RES {k: [values]}, HOK"""
     outs, bok, iters, ress, hok = {}, {}, {}, {}, None
+    global last_scr
+    last_scr = {}
     for key, toks in res:
+        if key in ("SX", "SB"):
+            vals = []; k = l = None
+            for rk in split_ranks(toks):
+                k, l = int(rk[0]), int(rk[1]); vals += [nums.parse_num(x) for x in rk[2:]]
+            last_scr[(key, k, l)] = vals
+            continue
         if key == "OUT":
             k, vals = parse_vec(toks)
-            raw = " ".join(x for x in toks if not (x.startswith("@") and x[1:].isdigit()))
+            raw = " ".join(" ".join(rk[1:]) for rk in split_ranks(toks))     # the printed values of all ranks, bit-exact
             outs[k] = (raw, vals)
         elif key == "BOK": bok[int(toks[0])] = toks[1] == "1"
         elif key == "ITER": iters[int(toks[0])] = int(toks[1])
         elif key == "RES": ress[int(toks[0])] = [nums.parse_num(x) for x in toks[1:]]
         elif key == "HOK": hok = toks[0] == "1"
     return outs, bok, iters, ress, hok
+
+last_scr = {}
 
 def finite(v): return all(not isinstance(x, str) for x in v)
 def vmax(v): return max([abs(float(x)) for x in v] + [0.0])
